@@ -258,6 +258,17 @@ func ruleCow(c *Ctx) []*Ob {
 	fBuf := c.Field("segment", "buf")
 	segWriters := map[string]bool{
 		"(*segment).mutate": true, "(*segment).mutateEx": true, "(*segment).Alloc": true, "(*segment).Swap": true,
+		"(*segment).readyDeferredSort": true, // before publication: ExecuteBatch readies the batch ahead of the lock
+		"(*segment).buildIndex":        true, // loader: right after loadBasicSegment, before the footer is published
+	}
+	segT := c.Named("segment").Underlying().(*types.Struct)
+	isSegField := func(v *types.Var) bool {
+		for k := 0; k < segT.NumFields(); k++ {
+			if segT.Field(k) == v {
+				return true
+			}
+		}
+		return false
 	}
 	for _, f := range c.Funcs {
 		if strings.HasSuffix(c.Fset.Position(f.Pos()).Filename, "smat.go") {
@@ -276,7 +287,8 @@ func ruleCow(c *Ctx) []*Ob {
 					"in-place write to a segment stack that may already be published ("+accessPath(a.Base)+"): snapshots and iterators holding it see their contents change, and unsynchronised readers race with the write")
 			}
 		}
-		for _, a := range fieldAccesses(f, func(v *types.Var) bool { return v == fKvs || v == fBuf }) {
+		_, _ = fKvs, fBuf
+		for _, a := range fieldAccesses(f, isSegField) {
 			if !a.Write {
 				continue
 			}
@@ -287,7 +299,7 @@ func ruleCow(c *Ctx) []*Ob {
 			case isFreshAlloc(a.Base):
 				o.add(fn, construct, c.instrPos(a.Instr), true, "constructor / loader: the segment is being created")
 			default:
-				o.add(fn, construct, c.instrPos(a.Instr), false, "a segment's kvs/buf are written outside the batch-building methods and constructors: published segments must be immutable")
+				o.add(fn, construct, c.instrPos(a.Instr), false, "a field of a (possibly published) segment is written outside the batch-building methods, readyDeferredSort, the loader and constructors: published segments are read without synchronisation and must be immutable")
 			}
 		}
 	}
